@@ -321,6 +321,7 @@ def run_history(case):
                 CobaContext.learning_info.clear()        # once per history; between evaluations the evaluator itself has to cope
             pre_notes = [run_pre(op) for op in episode_pre(case, k)]
             n0 = len(lrn.calls)
+            r0 = len(lrn.raw)
             out = {"exc": None, "rows": None, "s0": [lrn.n_pred, lrn.n_score]}
             if pre_notes:
                 out["pre"] = pre_notes
@@ -343,6 +344,7 @@ def run_history(case):
                 out["exc"] = "CobaExit"
                 out["msg"] = str(e)[:300]
             out["calls"] = [dict(c) for c in lrn.calls[n0:]]
+            out["raw"] = [dict(c) for c in lrn.raw[r0:]]
             outs.append(out)
     finally:
         CobaContext.logger = old_logger
@@ -499,7 +501,7 @@ def monitor(case, impl):
     exp_rows = []
     unknown_draw = False
     draw_rng = None
-    if L["fmt"] in ("pmf", "pmfK") and effective_seed(case) is not None:
+    if L["fmt"] in PMF_FMTS and effective_seed(case) is not None:
         from coba.random import CobaRandom
         draw_rng = CobaRandom(effective_seed(case))     # SafeLearner(learner, seed): one choicew per predicted row, rows in order
     infos_pred, infos_learn = {}, {}
@@ -537,9 +539,13 @@ def monitor(case, impl):
         if np_ and batched and lo == 0 and n_predicts == len(inters) + 1 and pos < len(calls) and calls[pos]["m"] == "predict":
             d0 = idict(chunk[0])
             if ceq(calls[pos]["ctx"], cn(mk(d0.get("context")))) and ceq(calls[pos]["acts"], cn(mk(d0["actions"])) if "actions" in d0 else None):
+                # finding F2 is the probe of a batch-ACCEPTING learner; a learner that refused the batch was called row by row
+                # (`_method['predict'] == 2` => batch_order answers 'row' without asking) and must never see a surplus predict
+                refusing = L.get("batch_mode", "aware") != "aware"
                 bad("batched evaluation: the learner saw a second predict for the first interaction (SafeLearner probes the orientation of the "
-                    "first batch prediction when batch size == len(prediction row)); the property allows one predict per interaction",
-                    "trace:extra-predict:batched-orientation-probe")
+                    "first batch prediction when batch size == len(prediction row)); the property allows one predict per interaction"
+                    + ("; this learner refuses batched arguments and is called row by row, where the orientation is known" if refusing else ""),
+                    "trace:extra-predict:batched-orientation-probe" + (":batch-refusing-learner" if refusing else ""))
                 tags.append("probe")
                 pos += 1
         for r, pairs in enumerate(chunk):
@@ -549,9 +555,17 @@ def monitor(case, impl):
             if ret is not None and ret.get("pmf") is not None and draw_rng is not None:
                 # the action SafeLearner must have drawn: CobaRandom(effective seed).choicew(actions, pmf), one draw per row in order
                 ws_f = [float(Fraction(w[1], w[2])) for w in ret["pmf"][1]]
-                ea, ep = draw_rng.choicew(mk(d["actions"]), ws_f)
+                # (independent of choicew: the index is drawn as choicew documents -- choice(range(n), weights) -- and the probability
+                # the property demands is the learner's OWN entry for that action, exactly; no normalisation, no tolerance)
+                acts_py = mk(d["actions"])
+                qi = draw_rng.choice(list(range(len(acts_py))), ws_f)
+                ea, ep = acts_py[qi], ws_f[qi]
                 c = calls[pos] if (learn in ("on", "ips") and pos < len(calls) and calls[pos]["m"] == "learn") else None
-                if c is not None and not (ceq(c["a"], cn(ea)) and ceq(c["p"], cn(ep))):
+                if c is not None and ceq(c["a"], cn(ea)) and not ceq(c["p"], cn(ep)):
+                    bad("interaction %d: the learner predicted the PMF %s (float sum %r) and action %s was played; learn must receive exactly the "
+                        "probability the learner predicted for the chosen action, %r, but received %s"
+                        % (lo + r, ws_f, sum(ws_f), cn(ea), ep, c["p"]), "trace:pmf-probability-not-own-entry")
+                elif c is not None and not (ceq(c["a"], cn(ea)) and ceq(c["p"], cn(ep))):
                     bad("interaction %d: the learner answered the PMF %s; with SequentialCB(seed=%r) and experiment seed %r the action must be drawn by "
                         "CobaRandom(%r): action=%s probability=%s, but learn received action=%s probability=%s"
                         % (lo + r, ret["pmf"][1], mk(L.get("pmf_seed")), case.get("experiment_seed"), effective_seed(case), cn(ea), cn(ep), c["a"], c["p"]),
@@ -773,7 +787,7 @@ def compare_hetero(case, impl, ans):
     if m["kind"] != "error" or m.get("err") != "KeyError" or m.get("key") not in fb["keys"]:
         fails.append(F("C", "firstBad says interaction %d lacks %s but evaluate gives %s" % (fb["at"], fb["keys"], json.dumps(m)[:120]), "C:hetero-firstBad"))
     pre = fb["prefix"]
-    if pre["kind"] == "ok" and case["learner"]["fmt"] not in ("pmf", "pmfK"):      # (PMF draws: the prefix is evaluated with the plain scripted learner)
+    if pre["kind"] == "ok" and case["learner"]["fmt"] not in PMF_FMTS:      # (PMF draws: the prefix is evaluated with the plain scripted learner)
         exp = [model_call(c) for c in pre["calls"]]
         got = [strip_call(c) for c in impl["calls"]]
         if len(got) > len(exp) or any(set(g) != set(e) or not all(ceq(g[k], e[k], tol=(k == "r")) for k in e) for g, e in zip(got, exp)):
@@ -788,7 +802,7 @@ def compare_record_keys(case, impl, ans):
     if rk is None or impl["rows"] is None:
         return []
     L = case["learner"]
-    if L["fmt"] in ("pmf", "pmfK"):
+    if L["fmt"] in PMF_FMTS:
         has_p = True
     else:
         has_p = L["fmt"] in ("AP", "APK", "dAP", "dAPK") and all(e.get("p") is not None for e in L["script"])
@@ -801,6 +815,72 @@ def compare_record_keys(case, impl, ans):
             return [F("A", "row %d holds the reserved cells %s, recordKeys (record=%r, learn=%s, eval=%s) says %s"
                       % (i, sorted(got), case["cfg"]["record"], case["cfg"]["learn"], case["cfg"]["eval"], sorted(want)), "A:record-keys")]
     return []
+
+
+def raw_width(impl):
+    """`len()` of the first row of the first batch-level answer the learner gave in this evaluation (None: no such answer, or it has no len / is a mapping)"""
+    for c in impl.get("raw", []):
+        if c["k"] == "batch" and c["m"] == "predict" and c.get("ok"):
+            return c.get("w")
+    return None
+
+
+def compare_raw(case, impl, ans):
+    """(A) for `callsSeen` (theorem calls_seen_by_learner_batched): every invocation of a method of the learner OBJECT during one
+    evaluate() with a learner that evaluate wraps afresh -- has_score probes, refused batch attempts, batch-level / row-level calls,
+    the orientation probe -- compared call by call with the recording learner's raw log (kind, method, accepted or refused, the
+    contexts carried); (C): the row-level reading of the model's raw calls is the loop skeleton, whose methods are those of the
+    model's evaluation trace."""
+    raw = ans.get("raw")
+    if not raw:
+        return [], []
+    env = case["env"]
+    ctxs = [cn(mk(idict(p_).get("context"))) for p_ in env["inters"]]
+    want = []
+    for c in raw["calls"]:
+        if c[0] == "probe":
+            want.append(("probe", None, True, []))
+        elif c[0] == "batch":
+            want.append(("batch", c[1], bool(c[3]), list(c[2])))
+        elif c[0] == "row":
+            want.append(("row", c[1], True, [c[2]]))
+        else:
+            want.append(("batch", "predict", True, [c[1]]))           # the orientation probe is a one-row batch predict
+    got = [(c["k"], c.get("m"), bool(c.get("ok", True)), c.get("ctx", [])) for c in impl.get("raw", [])]
+    fails, tags = [], []
+    n_or = sum(1 for c in raw["calls"] if c[0] == "orient")
+    n_ref = sum(1 for c in raw["calls"] if c[0] == "batch" and not c[3])
+    tags += ["raw:orient:%d" % n_or, "raw:refused:%d" % n_ref, "raw:probes:%d" % sum(1 for c in raw["calls"] if c[0] == "probe")]
+
+    def show(w):
+        return "%s %s%s rows=%s" % (w[0], w[1] or "score(None,None,None)", "" if w[2] else " (refused)", w[3])
+    ok = len(want) == len(got)
+    at = None
+    for i, (w, g) in enumerate(zip(want, got)):
+        if w[:3] != g[:3] or len(w[3]) != len(g[3]) or not all(ceq(ctxs[j], gc) for j, gc in zip(w[3], g[3])):
+            ok, at = False, i
+            break
+    if not ok:
+        if at is None:
+            at = min(len(want), len(got))
+        fails.append(F("A", "the learner object received %d calls, the model of SafeLearner's call discipline gives %d; first difference at call %d: "
+                       "model %s, learner saw %s (batch=%s, batch_mode=%s, fmt=%s, first answer width=%s)"
+                       % (len(got), len(want), at, show(want[at]) if at < len(want) else None,
+                          (got[at][0], got[at][1], got[at][2], len(got[at][3])) if at < len(got) else None,
+                          env.get("batch"), case["learner"].get("batch_mode", "aware"), case["learner"]["fmt"], raw_width(impl)),
+                       "A:raw-calls:%s" % ("count" if len(want) != len(got) else want[at][0] if at < len(want) else "count")))
+    # (C) the model's own raw calls, read row-wise, are the loop skeleton (theorem) and the skeleton's methods are the trace's
+    rl = []
+    for c in raw["calls"]:
+        if c[0] == "batch" and c[3]:
+            rl += [[c[1], i] for i in c[2]]
+        elif c[0] == "row":
+            rl.append([c[1], c[2]])
+    body = raw["skeleton"]
+    if ans["model"].get("kind") == "ok" and (rl != body or (raw.get("modelMeths") is not None and [m for m, _ in body] != raw["modelMeths"])):
+        fails.append(F("C", "row-level reading of callsSeen %s / skeleton %s / methods of the model trace %s disagree"
+                       % (json.dumps(rl)[:120], json.dumps(body)[:120], json.dumps(raw.get("modelMeths"))[:120]), "C:raw-skeleton"))
+    return fails, tags
 
 
 def strip_call(c):
@@ -847,12 +927,12 @@ def model_request(case, s0=(0, 0)):
     has_k = L["fmt"].endswith("K")
     script = [{"idx": e["idx"], "free": vstr(mk(e.get("free"))), "p": e.get("p") if has_p else None,
                "kw": [[k, vstr(mk(e["kw"][k]))] for k in L.get("kw_keys", ())] if has_k else [], "s": e.get("s", [1, 2]),
-               "pm": e.get("pm", []),
+               "pm": [[n_, [[Fraction(w[0] / w[1]).numerator, Fraction(w[0] / w[1]).denominator] for w in ws]] for n_, ws in e.get("pm", [])],
                "ip": [[k, vstr(mk(v))] for k, v in e.get("ip", [])] if L.get("info") else [],
                "il": [[k, vstr(mk(v))] for k, v in e.get("il", [])] if L.get("info") else []} for e in L["script"]]
     return {"cfg": {"learn": cfg["learn"], "eval": cfg["eval"], "record": cfg["record"]}, "batch": env.get("batch"),
             "env": menv, "learner": dict({"has_score": L["has_score"], "script": script},
-                                         **({"pmf_seed": int(effective_seed(case))} if L["fmt"] in ("pmf", "pmfK") and effective_seed(case) is not None else {})),
+                                         **({"pmf_seed": int(effective_seed(case))} if L["fmt"] in PMF_FMTS and effective_seed(case) is not None else {})),
             "s0": list(s0)}
 
 
@@ -917,7 +997,7 @@ def compare_A(case, impl, ans):
     m = ans["model"]
     if case["learner"].get("info"):
         m = ans["modelIB"] if case["env"].get("batch") else ans["modelI"]
-    if case["learner"]["fmt"] in ("pmf", "pmfK"):
+    if case["learner"]["fmt"] in PMF_FMTS:
         m = ans["modelP"]
         if m is None:
             return fails            # time-seeded generator (no seed anywhere): the draws cannot be predicted
@@ -1149,6 +1229,33 @@ PMFS = {1: [[(1, 1)]],
         4: [[(1, 4)] * 4, [(1, 2), (0, 1), (1, 4), (1, 4)], [(1, 8), (1, 8), (1, 4), (1, 2)]],
         5: [[(1, 2), (1, 8), (1, 8), (1, 8), (1, 8)], [(0, 1), (0, 1), (1, 1), (0, 1), (0, 1)], [(1, 4), (1, 4), (1, 4), (1, 8), (1, 8)]]}
 
+# round h: PMFs whose FLOAT sum is not exactly 1.0 but inside SafeLearner's 0.001 tolerance (entries rounded to four decimals, an
+# epsilon-greedy 0.3 over three actions, sevenths): what real learners answer.  The probability handed to learn / recorded must be the
+# learner's own entry for the played action, exactly.  (n, d) stands for the double n/d.
+PMF_FMTS = ("pmf", "pmfK", "pmfB")        # {'pmf': ws}, ({'pmf': ws}, kwargs), and (corpus only, un-batched) the bare list ws
+# bare-list PMFs around SafeLearner.possible_pmf's tolerance (abs 0.001): float sums 1.0009 (accepted) / 1.002, 0.998 (not a PMF, not an action)
+PMFS_EDGE_IN = {1: [(10009, 10000)], 2: [(5004, 10000), (5005, 10000)], 3: [(3336, 10000), (3336, 10000), (3337, 10000)],
+                4: [(25, 100), (25, 100), (25, 100), (2509, 10000)], 5: [(2, 10), (2, 10), (2, 10), (2, 10), (2009, 10000)]}
+PMFS_EDGE_OUT = {1: [(1002, 1000)], 2: [(501, 1000), (501, 1000)], 3: [(334, 1000), (334, 1000), (334, 1000)],
+                 4: [(25, 100), (25, 100), (25, 100), (248, 1000)], 5: [(2, 10), (2, 10), (2, 10), (2, 10), (198, 1000)]}
+PMFS_INEXACT = {1: [[(10005, 10000)], [(9995, 10000)]],
+                2: [[(5002, 10000), (5002, 10000)], [(3, 10), (7001, 10000)], [(1, 10), (8995, 10000)]],
+                3: [[(3334, 10000), (3333, 10000), (3334, 10000)], [(8, 10), (1, 10), (1, 10)], [(3333, 10000), (3333, 10000), (3333, 10000)],
+                    [(0, 1), (4999, 10000), (5008, 10000)]],
+                4: [[(25, 100), (25, 100), (25, 100), (2505, 10000)], [(2505, 10000), (2505, 10000), (2495, 10000), (25, 100)],
+                    [(7, 10), (1, 10), (1, 10), (1, 10)]],
+                5: [[(2, 10), (2, 10), (2, 10), (2, 10), (2004, 10000)], [(1999, 10000)] * 5, [(6, 10), (1, 10), (1, 10), (1, 10), (1, 10)]]}
+
+
+def pmf_outside(L):
+    """a bare-list answer whose float sum is further than 0.001 from 1: SafeLearner documents it cannot be read as a PMF"""
+    return L["fmt"] == "pmfB" and all(abs(sum(w[0] / w[1] for w in ws) - 1) > 0.001 for e in L.get("script", []) for _, ws in e.get("pm", []))
+
+
+def pmf_inexact(L):
+    """does some PMF of this learner's script have a float sum different from 1.0"""
+    return any(sum(w[0] / w[1] for w in ws) != 1.0 for e in L.get("script", []) for _, ws in e.get("pm", []))
+
 
 def gen_episode(rng, boundary=False, cfg_fixed=None):
     """one (cfg, env) pair + the action style that restricts the learner's prediction format; with `cfg_fixed` only the
@@ -1313,16 +1420,17 @@ def gen_learner(rng, cfgs, envs, allow_pmf=True, has_score=None, force_pmf=False
                        "pint": rng.chance(0.5),
                        "kw": {k: gen_any(rng, 1) for k in kw_keys}, "s": rng.choice([[1, 2], [1, 4], [1, 1], [0, 1], [3, 4]])})
     L = {"fmt": fmt, "has_score": has_score, "batch_mode": rng.choice(["aware", "unaware"]), "kw_keys": kw_keys, "script": script}
-    if fmt in ("pmf", "pmfK"):
+    if fmt in PMF_FMTS:
         # SequentialCB(seed=…): 0 and 0.0 are seeds like any other; None falls back to the experiment's seed (set by the case)
         L["pmf_seed"] = rng.choice([0, 0, {"f": [0, 1]}, 1, 1, 7, 42, 1000003, None, None])
+        inexact = rng.chance(0.4)              # round h: float sums != 1.0 inside SafeLearner's tolerance
         for e in script:
-            e["pm"] = [[n_, [list(w) for w in rng.choice(PMFS[n_])]] for n_ in range(1, 6)]
+            e["pm"] = [[n_, [list(w) for w in rng.choice(PMFS_INEXACT[n_] if inexact and rng.chance(0.8) else PMFS[n_])]] for n_ in range(1, 6)]
     def info_ok(e_):
         # in a batched pass the info is merged into the batch row; a batch row without any Batch.List cell is never un-batched
         # (then there is one row per batch holding the raw info) -- generated only where every row has an extra field
         return not e_.get("batch") or all(any(k not in RESERVED for k, _ in p_) for p_ in e_["inters"])
-    if fmt not in ("pmf", "pmfK") and rng.chance(0.15) and all(info_ok(e_) for e_ in envs):
+    if fmt not in PMF_FMTS and rng.chance(0.15) and all(info_ok(e_) for e_ in envs):
         # the learner also writes CobaContext.learning_info: predict writes `ip`, learn then update()s with `il` (modelled un-batched)
         L["info"] = True
         for e in script:
@@ -1412,7 +1520,7 @@ def gen_case0(rng, tier="quick", boundary=False):
             then.append({"cfg": c2, "env": e2})
     L = gen_learner(rng, [cfg] + [t["cfg"] for t in then], [env] + [t["env"] for t in then])
     case = {"cfg": cfg, "env": env, "learner": L}
-    if L["fmt"] in ("pmf", "pmfK"):
+    if L["fmt"] in PMF_FMTS:
         case["experiment_seed"] = rng.choice([None, None, 5, 11, 0]) if L["pmf_seed"] is not None else rng.choice([5, 11, 0, 3, None])
     if then:
         case["then"] = then
@@ -1489,6 +1597,57 @@ def extract_tables(repo):
     for k in DEFAULT_TABLES:
         assert k in t, k
     return t
+
+
+DEFAULT_ROW_PROGRAM = {
+    "flag_defs": [["out_prob", "probability", "eval"], ["out_time", "time", ""], ["out_action", "action", "eval"], ["out_context", "context", ""],
+                  ["out_actions", "actions", "has_actions"], ["out_rewards", "rewards", "has_rewards"], ["out_reward", "reward", "eval"],
+                  ["out_ope_loss", "ope_loss", "eval"]],
+    "row_program": [["predict_time", ["out_time"]], ["learn_time", ["out_time", "learn"]], ["context", ["out_context"]], ["actions", ["out_actions"]],
+                    ["action", ["out_action"]], ["reward", ["out_reward"]], ["rewards", ["out_rewards"]], ["ope_loss", ["out_ope_loss"]],
+                    ["probability", ["out_prob", "should_pred", "on_pr"]]]}
+
+
+def extract_row_program(repo):
+    """phase 5 (goal 3): the record-construction code of `_results` as a small program, read with `ast` from the source under test --
+    the `out_* = '<name>' in self._record [and <guard>]` flag definitions and, in program order, every `if <conjunction>: out['<key>'] = …`
+    statement of the loop body (the conjunction as a list of atoms: flag names, `learn`, `should_pred`, `on_pr` for `on_pr is not None`)"""
+    import ast
+    seq = ast.parse(open(os.path.join(repo, "coba", "evaluators", "sequential.py"), encoding="utf-8").read())
+    cls = next(n for n in seq.body if isinstance(n, ast.ClassDef) and n.name == "SequentialCB")
+    res = next(n for n in cls.body if isinstance(n, ast.FunctionDef) and n.name == "_results")
+
+    def in_record(v):
+        ok = (isinstance(v, ast.Compare) and len(v.ops) == 1 and isinstance(v.ops[0], ast.In) and isinstance(v.left, ast.Constant)
+              and isinstance(v.comparators[0], ast.Attribute) and v.comparators[0].attr == "_record")
+        return v.left.value if ok else None
+    defs = []
+    for n in res.body:
+        if isinstance(n, ast.Assign) and len(n.targets) == 1 and isinstance(n.targets[0], ast.Name) and n.targets[0].id.startswith("out_"):
+            v = n.value
+            if in_record(v) is not None:
+                defs.append([n.targets[0].id, in_record(v), ""])
+            else:
+                assert isinstance(v, ast.BoolOp) and isinstance(v.op, ast.And) and len(v.values) == 2 and in_record(v.values[0]) is not None and isinstance(v.values[1], ast.Name)
+                defs.append([n.targets[0].id, in_record(v.values[0]), v.values[1].id])
+    loop = next(n for n in res.body if isinstance(n, ast.For) and isinstance(n.target, ast.Name) and n.target.id == "interaction")
+
+    def atom(e):
+        if isinstance(e, ast.Name):
+            return e.id
+        assert (isinstance(e, ast.Compare) and isinstance(e.left, ast.Name) and e.left.id == "on_pr" and isinstance(e.ops[0], ast.IsNot)
+                and isinstance(e.comparators[0], ast.Constant) and e.comparators[0].value is None), ast.dump(e)
+        return "on_pr"
+    prog = []
+    for n in loop.body:
+        if (isinstance(n, ast.If) and not n.orelse and len(n.body) == 1 and isinstance(n.body[0], ast.Assign)
+                and isinstance(n.body[0].targets[0], ast.Subscript) and isinstance(n.body[0].targets[0].value, ast.Name)
+                and n.body[0].targets[0].value.id == "out"):
+            key = n.body[0].targets[0].slice.value
+            atoms = [atom(x) for x in n.test.values] if isinstance(n.test, ast.BoolOp) and isinstance(n.test.op, ast.And) else [atom(n.test)]
+            prog.append([key, atoms])
+    assert defs and prog
+    return {"flag_defs": defs, "row_program": prog}
 
 
 # ------------------------------------------------------------------ the property
@@ -1578,6 +1737,23 @@ def corpus_cases():
             for fmt, batch in (("pmf", None), ("pmfK", 2)):
                 cs.append({"cfg": {"learn": "on", "eval": "on", "record": dflt}, "env": {"batch": batch, "gen": False, "inters": sim + sim},
                            "learner": dict(L(fmt=fmt, kw=("i",) if fmt == "pmfK" else (), script=pscript), pmf_seed=own), "experiment_seed": exp})
+    # round h (seeded C06-hm2): PMF answers whose float sum is not exactly 1.0 (inside SafeLearner's tolerance): the probability given to
+    # learn and recorded is the learner's own entry for the played action, exactly -- every inexact PMF, several seeds, on/ips, Batch(2)
+    for q in range(4):
+        hscript = [{"idx": 0, "free": 0, "p": [1, 2], "kw": {"i": j}, "s": [1, 2],
+                    "pm": [[n_, [list(w) for w in PMFS_INEXACT[n_][(q + j) % len(PMFS_INEXACT[n_])]]] for n_ in range(1, 6)]} for j in range(2)]
+        for own in (0, 1, 7):
+            for learn, ev, inters in (("on", "on", sim + sim), ("ips", "ips", both + both)):
+                for fmt, batch in (("pmf", None), ("pmfK", 2)):
+                    cs.append({"cfg": {"learn": learn, "eval": ev, "record": dflt}, "env": {"batch": batch, "gen": False, "inters": inters},
+                               "learner": dict(L(fmt=fmt, kw=("i",) if fmt == "pmfK" else (), script=hscript), pmf_seed=own), "experiment_seed": None})
+    sim3 = [p_ for p_ in sim if len(idict(p_)["actions"]["l"]) == 3]
+    for tbl in (PMFS_EDGE_IN, PMFS_EDGE_OUT, {n_: v[0] for n_, v in PMFS_INEXACT.items()}):
+        bscript = [{"idx": 0, "free": 0, "p": [1, 2], "kw": {}, "s": [1, 2], "pm": [[n_, [list(w) for w in tbl[n_]]] for n_ in range(1, 6)]}]
+        for own in (0, 7):
+            for learn, ev, inters in (("on", "on", sim3 + sim + sim3), ("ips", "ips", [p_ for p_ in both if len(idict(p_)["actions"]["l"]) == 3] * 2)):
+                cs.append({"cfg": {"learn": learn, "eval": ev, "record": dflt}, "env": {"batch": None, "gen": False, "inters": inters},
+                           "learner": dict(L(fmt="pmfB", script=bscript), pmf_seed=own), "experiment_seed": None})
     # logs built with LoggedInteraction(...): falsy-but-legal values are values (probability 0 / 0.0, reward 0, action 0, context 0 / '' / [])
     lz = [[["context", c_], ["action", a_], ["reward", r_], ["probability", p_], ["actions", {"l": [0, "b", 2]}]]
           for c_, a_, r_, p_ in ((0, 0, 0, 0), ("", "b", {"f": [0, 1]}, {"f": [0, 1]}), ({"l": []}, 2, 1, {"f": [1, 2]}), ({"f": [0, 1]}, 0, 2, 0))]
@@ -1752,7 +1928,27 @@ class C06(Property):
             os.makedirs(os.path.dirname(path), exist_ok=True)
             with open(path, "w", encoding="utf-8") as f:
                 f.write(body)
-        return [note]
+        # phase 5: the record-construction code as a program (theorem record_program_matches)
+        path2 = os.path.join(lean.LEAN_DIR, "CobaVerif", "Generated", "C06RowProgram.lean")
+        try:
+            rp = dict(extract_row_program(os.environ.get("COBA_REPO", "/repo")), extracted=True)
+            note2 = "C06 row program extracted from SequentialCB._results"
+        except Exception as e:        # noqa
+            rp = dict(DEFAULT_ROW_PROGRAM, extracted=False)
+            note2 = "C06 row program could not be extracted (%s: %s); (A) record-keys still pins it" % (type(e).__name__, e)
+        body2 = ("-- GENERATED by harness/props/c06.py from coba/evaluators/sequential.py (SequentialCB._results) on every run; do not edit.\n"
+                 "namespace Coba.Generated.C06\n"
+                 "def flagDefs : List (String × String × String) := [%s]\n"
+                 "def rowProgram : List (String × List String) := [%s]\n"
+                 "def rowProgramExtracted : Bool := %s\nend Coba.Generated.C06\n"
+                 % (", ".join("(%s, %s, %s)" % tuple(json.dumps(x) for x in d) for d in rp["flag_defs"]),
+                    ", ".join("(%s, %s)" % (json.dumps(k), sl(a)) for k, a in rp["row_program"]),
+                    "true" if rp["extracted"] else "false"))
+        old2 = open(path2, encoding="utf-8").read() if os.path.exists(path2) else None
+        if old2 != body2:
+            with open(path2, "w", encoding="utf-8") as f:
+                f.write(body2)
+        return [note, note2]
 
     def corpus(self):
         return corpus_cases()
@@ -1781,7 +1977,18 @@ class C06(Property):
             if episode_pre(case, k):
                 ecase = dict(ecase, pre=episode_pre(case, k))
             xmode, het = is_xcfg(cfg), hetero_reserved(env)
-            if xmode:
+            outside = pmf_outside(L) and bool(env["inters"])
+            if outside:
+                # outside the quantifier (not a prediction format): (A) only -- SafeLearner must refuse it (CobaException naming the format),
+                # nothing is learned, no row is produced
+                efails, etags = [], ["pmf:bare:outside-tolerance"]
+                n_learn = sum(1 for c in impl["calls"] if c["m"] == "learn")
+                if impl["exc"] != "CobaException" or "prediction format" not in impl.get("msg", "") or n_learn or impl["rows"]:
+                    efails.append(F("A", "a bare list %s (float sum %r, further than 0.001 from 1, not an action) was not refused as an unreadable "
+                                    "prediction: exc=%s %s, learn calls=%d, rows=%s" % (L["script"][0]["pm"], [sum(w[0] / w[1] for w in ws) for _, ws in L["script"][0]["pm"]],
+                                                                                        impl["exc"], impl.get("msg", "")[:80], n_learn, impl["rows"]),
+                                    "A:pmf-outside-tolerance-not-refused"))
+            elif xmode:
                 efails, etags = monitor_x(ecase, impl)
             elif het:
                 efails, etags = [], ["hetero-reserved-keys"]       # outside the quantifier: (A) only
@@ -1803,8 +2010,12 @@ class C06(Property):
                     etags.append("tiny-logged-probability")
             if impl["exc"]:
                 etags.append("raised:" + impl["exc"])
+            if L["fmt"] in PMF_FMTS:
+                etags.append("pmf:inexact-sum" if pmf_inexact(L) else "pmf:exact-sum")
             model = None
-            if driver is not None and xmode:
+            if outside:
+                pass
+            elif driver is not None and xmode:
                 req = model_request(dict(ecase, cfg=dict(cfg, learn=None, eval=None)), impl["s0"])
                 req["xcfg"] = {"learn": cfg["learn"], "eval": cfg["eval"], "record": cfg["record"]}
                 req["vw"] = vw_installed()
@@ -1822,9 +2033,18 @@ class C06(Property):
                     etags.append("hetero:keyerror:" + "+".join(ans["firstBad"]["keys"]))
                     efails += hf
             elif driver is not None:
-                ans = driver.ask(model_request(ecase, impl["s0"]))
+                req0 = model_request(ecase, impl["s0"])
+                raw_on = not L.get("prewrap")
+                if raw_on:
+                    req0["learner"]["raw"] = {"aware": L.get("batch_mode", "aware") == "aware", "width": raw_width(impl)}
+                ans = driver.ask(req0)
                 model = ans["model"]
-                if (case.get("_xcheck") or len(json.dumps(ecase["cfg"])) % 5 == 0) and not case["learner"].get("info") and L["fmt"] not in ("pmf", "pmfK"):
+                if raw_on and (impl["exc"] is None and model.get("kind") == "ok"
+                               or impl["exc"] == "CobaException" and model.get("kind") == "error" and model.get("err") == "missing"):
+                    rf, rt = compare_raw(ecase, impl, ans)
+                    efails += rf
+                    etags += rt
+                if (case.get("_xcheck") or len(json.dumps(ecase["cfg"])) % 5 == 0) and not case["learner"].get("info") and L["fmt"] not in PMF_FMTS:
                     # theorem evaluateX_conservative: on the package-free modes the all-modes model is the model
                     req = model_request(ecase, impl["s0"])
                     req["xcfg"] = req["cfg"]
@@ -1842,7 +2062,7 @@ class C06(Property):
                     efails += compare_A(ecase, impl, ans)
                     if not L.get("info") and not any(f["kind"] == "B" for f in efails):
                         efails += compare_record_keys(ecase, impl, ans)
-                obl = (len(env["inters"]), env["batch"]) if (env.get("batch") and len(L["script"]) == 1 and L["fmt"] not in ("pmf", "pmfK")) else None
+                obl = (len(env["inters"]), env["batch"]) if (env.get("batch") and len(L["script"]) == 1 and L["fmt"] not in PMF_FMTS) else None
                 efails += compare_C(ans, bool(env.get("batch")) and bool(env["inters"]), obl)
                 if ans.get("hyp"):
                     etags.append("hyp")
@@ -1864,7 +2084,7 @@ class C06(Property):
             valid_all = valid_all and bool(env["inters"]) and not any(t.startswith("reject:") for t in etags)
             n_inters += len(env["inters"])
         L = case["learner"]
-        if driver is not None and n_eps > 1 and not own_learners and all(m is not None for m in models) and L["fmt"] not in ("pmf", "pmfK"):
+        if driver is not None and n_eps > 1 and not own_learners and all(m is not None for m in models) and L["fmt"] not in PMF_FMTS:
             # `runHistory` (theorem evaluations_independent): the k-th outcome of the whole history, evaluated by the model from the
             # initial learner state, must be the outcome replayed from the real learner's script position at the start of evaluation k
             # -- as long as the model's learner state after every earlier evaluation is the real one
